@@ -3,6 +3,7 @@ package props
 import (
 	"fmt"
 	"go/token"
+	"go/types"
 	"strings"
 
 	"golang.org/x/tools/go/ssa"
@@ -83,9 +84,22 @@ func c10(r *core.Report, p *core.Prog, thorough bool) {
 		}
 		// ---- gate
 		credits := append(CreditsOf(fn, dpReward), CreditsOf(fn, spReward)...)
+		// the proportional loop may live in a helper of the package: its credits are gated
+		// by what holds at the helper's call site
+		lfn, lcall := c10LoopHelper(fn, dpReward)
+		gateAt := map[ssa.Instruction]*ssa.BasicBlock{}
+		if lfn != nil {
+			for _, c := range CreditsOf(lfn, dpReward) {
+				credits = append(credits, c)
+				gateAt[c.W.Instr] = lcall.Block()
+			}
+		}
 		r.Floor("C10.gate", name+" credits", len(credits), 3)
 		for i, c := range credits {
 			b := c.W.Instr.Block()
+			if gb := gateAt[c.W.Instr]; gb != nil {
+				b = gb
+			}
 			g1 := HasCmp(b, "value", token.NEQ, "0")
 			g2 := BoolFact(b, ".HasBeenKilled", false)
 			g3 := HasCmp(b, "stake()#0", token.GEQ, ".MinStake")
@@ -144,16 +158,29 @@ func c10(r *core.Report, p *core.Prog, thorough bool) {
 		}
 		// ---- proportional loop
 		var loopCredit *Credit
-		for _, c := range CreditsOf(fn, dpReward) {
+		loopFn := fn
+		// start: the value the running balance starts from, as the loop's function sees it;
+		// leftover: the balance the loop leaves, as fn sees it (set below)
+		start := valueLeft
+		if lfn != nil {
+			loopFn = lfn
+			start = nil
+			for i, a := range lcall.Call.Args {
+				if a == valueLeft && valueLeft != nil && i < len(lfn.Params) {
+					start = lfn.Params[i]
+				}
+			}
+		}
+		for _, c := range CreditsOf(loopFn, dpReward) {
 			c := c
-			if len(core.LoopsContaining(fn, c.W.Instr.Block())) > 0 {
+			if len(core.LoopsContaining(loopFn, c.W.Instr.Block())) > 0 {
 				loopCredit = &c
 			}
 		}
-		if !r.Check(loopCredit != nil, "C10.same-value", name+":loop-credit", p.Pos(fn.Pos()), "a delegate credit inside the proportional loop") {
+		if !r.Check(loopCredit != nil, "C10.same-value", name+":loop-credit", p.Pos(fn.Pos()), "a delegate credit inside the proportional loop (in the distributor or in the one helper it hands the remainder to)") {
 			continue
 		}
-		loops := core.LoopsContaining(fn, loopCredit.W.Instr.Block())
+		loops := core.LoopsContaining(loopFn, loopCredit.W.Instr.Block())
 		hdr := loops[0].Header
 		// the running balance: loop-header phi of Coin type whose initial value is valueLeft
 		var balPhi *ssa.Phi
@@ -163,7 +190,7 @@ func c10(r *core.Report, p *core.Prog, thorough bool) {
 				continue
 			}
 			for _, e := range ph.Edges {
-				if e == valueLeft {
+				if e == start && start != nil {
 					balPhi = ph
 				}
 			}
@@ -183,7 +210,7 @@ func c10(r *core.Report, p *core.Prog, thorough bool) {
 			fmt.Sprintf("credited %s, balance becomes %s: credited + new balance must equal the old balance on every edge", loopCredit.Added.Name(), nameOf(newBal)))
 		// recorded value
 		recOK := false
-		for _, b := range fn.Blocks {
+		for _, b := range loopFn.Blocks {
 			for _, in := range b.Instrs {
 				if mu, ok := in.(*ssa.MapUpdate); ok && loops[0].Body[b] && strings.HasSuffix(describe(mu.Map), ".DelegateRewards") {
 					if mu.Value == loopCredit.Added {
@@ -196,16 +223,42 @@ func c10(r *core.Report, p *core.Prog, thorough bool) {
 		}
 		r.Check(recOK, "C10.same-value", name+":recorded-equals-credited", posOf(p, loopCredit.W.Instr), "the per-delegate amount recorded in the event must be the credited SSA value")
 		// ---- leftover
+		var leftover ssa.Value = balPhi
+		if lfn != nil {
+			// the helper hands the balance its loop leaves back as result 0 on every success exit
+			leftover = nil
+			okRet := true
+			for _, ret := range core.SuccessExits(lfn) {
+				if core.ResultValue(ret, 0) != ssa.Value(balPhi) {
+					okRet = false
+				}
+			}
+			if okRet {
+				if lfn.Signature.Results().Len() == 1 {
+					leftover = lcall
+				} else {
+					for _, ref := range *lcall.Referrers() {
+						if ex, ok := ref.(*ssa.Extract); ok && ex.Index == 0 {
+							leftover = ex
+						}
+					}
+				}
+			}
+			r.Check(leftover != nil && core.ErrLeadsToFailure(lcall), "C10.leftover", name+":helper-returns-balance", p.Pos(lcall.Pos()), "the helper running the proportional loop returns the balance the loop leaves, and its error fails the distribution")
+			if leftover == nil {
+				continue
+			}
+		}
 		var eq []*ssa.Call
 		for _, cs := range core.CallsIn(fn, false, func(c *ssa.CallCommon) bool { return core.MethodName(c) == "equallyDistributeRewards" }) {
 			eq = append(eq, cs.Instr.(*ssa.Call))
 		}
 		if r.Check(len(eq) == 1, "C10.leftover", name+":equal-distribution-call", p.Pos(fn.Pos()), fmt.Sprintf("%d calls", len(eq))) {
 			args := core.CallArgs(eq[0].Common())
-			r.Check(args[0] == ssa.Value(balPhi), "C10.leftover", name+":leftover-arg", p.Pos(eq[0].Pos()), "argument must be the running balance left by the loop, got "+describe(args[0]))
+			r.Check(args[0] == leftover, "C10.leftover", name+":leftover-arg", p.Pos(eq[0].Pos()), "argument must be the running balance left by the loop, got "+describe(args[0]))
 			gt := false
 			for _, c := range CmpFacts(eq[0].Block()) {
-				if (c.X == ssa.Value(balPhi) && c.Op == token.GTR && c.YD == "0") || (c.X == ssa.Value(balPhi) && c.Op == token.NEQ && c.YD == "0") {
+				if (c.X == leftover && c.Op == token.GTR && c.YD == "0") || (c.X == leftover && c.Op == token.NEQ && c.YD == "0") {
 					gt = true
 				}
 			}
@@ -213,9 +266,15 @@ func c10(r *core.Report, p *core.Prog, thorough bool) {
 			r.Check(core.ErrLeadsToFailure(eq[0]), "C10.leftover", name+":err", p.Pos(eq[0].Pos()), "its error fails the distribution")
 			// the leftover goes to the very pools the proportional loop paid
 			var loopSlice ssa.Value
-			for _, rl := range RangeLoops(fn) {
+			for _, rl := range RangeLoops(loopFn) {
 				if rl.L.Header == hdr {
 					loopSlice = rl.Slice
+					if lfn != nil { // seen from fn: the argument bound to the ranged parameter
+						loopSlice = nil
+						if prm := core.ParamOf(rl.Slice); prm != nil {
+							loopSlice = actualOf(lcall, prm)
+						}
+					}
 				}
 			}
 			allOfSP := func(v ssa.Value) bool {
@@ -243,7 +302,11 @@ func c10(r *core.Report, p *core.Prog, thorough bool) {
 			r.Check(okSame, "C10.leftover", name+":same-pools", p.Pos(eq[0].Pos()), "the rounding leftover is shared among exactly the pools the loop paid (a delegate outside the selection gets nothing); "+d)
 		}
 		// ---- arithmetic
-		for _, o := range RawCoinArith([]*ssa.Function{fn}) {
+		arithFns := []*ssa.Function{fn}
+		if lfn != nil {
+			arithFns = append(arithFns, lfn)
+		}
+		for _, o := range RawCoinArith(arithFns) {
 			if o.Op.Op != token.SUB {
 				continue
 			}
@@ -382,4 +445,41 @@ func nameOf(v ssa.Value) string {
 		return "<nil>"
 	}
 	return v.Name()
+}
+
+// c10LoopHelper: when fn itself credits no delegate inside a loop, the one same-package
+// function it calls that does (other than the equal distribution of the leftover).
+func c10LoopHelper(fn *ssa.Function, dpReward *types.Var) (*ssa.Function, *ssa.Call) {
+	inLoop := func(f *ssa.Function) bool {
+		for _, c := range CreditsOf(f, dpReward) {
+			if len(core.LoopsContaining(f, c.W.Instr.Block())) > 0 {
+				return true
+			}
+		}
+		return false
+	}
+	if inLoop(fn) {
+		return nil, nil
+	}
+	var hf *ssa.Function
+	var hc *ssa.Call
+	n := 0
+	for _, cs := range core.CallsIn(fn, false, nil) {
+		call, ok := cs.Instr.(*ssa.Call)
+		if !ok {
+			continue
+		}
+		h := core.StaticCallee(call.Common())
+		if h == nil || h.Pkg != fn.Pkg || h.Blocks == nil || strings.HasSuffix(h.Name(), "equallyDistributeRewards") {
+			continue
+		}
+		if inLoop(h) {
+			hf, hc = h, call
+			n++
+		}
+	}
+	if n != 1 {
+		return nil, nil
+	}
+	return hf, hc
 }
